@@ -236,6 +236,9 @@ def call_builtin(eng, p, args, kwargs, fr, node):
             if len(args) == 1:
                 return unzip(eng, args[0].t, fr)
             raise Unsupported("zip(*a, b)")
+        if args and all(a.k == "tuple" for a in args):
+            n = min(len(a.t) for a in args)
+            return mk_tuple([mk_tuple([a.t[i] for a in args]) for i in range(n)])
         specs = [eng.iterspec(a, fr) for a in args]
         lens = [s.length for s in specs if s.length is not None]
         if not lens:
@@ -273,7 +276,12 @@ def call_builtin(eng, p, args, kwargs, fr, node):
         if sp.length is None or sp.elem is None:
             raise Unsupported("any/all over unbounded")
         i = z3.Int(fresh_name("q"))
-        body = eng.truth(sp.elem(i), fr)
+        bound = list(getattr(eng, "_bound", []))
+        eng._bound = bound + [i]
+        try:
+            body = eng.truth(sp.elem(i), fr)
+        finally:
+            eng._bound = bound
         rng = z3.And(0 <= i, i < sp.length)
         if name == "any":
             return mk_bool(z3.Exists([i], z3.And(rng, body)))
